@@ -16,6 +16,18 @@ Inductive src_State : Type :=
   | src_State_AnyTrans (x0 : N)
   | src_State_EmptyFinal.
 
+Definition src_fn_read_u32_le (slice : list N) : res N :=
+  do t <- (if (4 <=? (len slice))
+    then (Ok 4)
+    else Panic);
+  Ok (le_lor (firstn (N.to_nat t) slice)).
+
+Definition src_fn_read_u64_le (slice : list N) : res N :=
+  do t <- (if (8 <=? (len slice))
+    then (Ok 8)
+    else Panic);
+  Ok (le_lor (firstn (N.to_nat t) slice)).
+
 Definition src_fn_pack_size (n : N) : N :=
   if (n <? 256)
   then 1
@@ -71,6 +83,38 @@ Definition src_fn_Bound_is_inclusive (self_ : src_Bound) : bool :=
   | src_Bound_Unbounded => true
   end.
 
+Definition src_fn_StreamBuilder_ge (self_min self_max : src_Bound) (bound : list N) : (src_Bound * src_Bound) :=
+  let selfmin := (src_Bound_Included bound) in
+  (selfmin, self_max).
+
+Definition src_fn_StreamBuilder_gt (self_min self_max : src_Bound) (bound : list N) : (src_Bound * src_Bound) :=
+  let selfmin := (src_Bound_Excluded bound) in
+  (selfmin, self_max).
+
+Definition src_fn_StreamBuilder_le (self_min self_max : src_Bound) (bound : list N) : (src_Bound * src_Bound) :=
+  let selfmax := (src_Bound_Included bound) in
+  (self_min, selfmax).
+
+Definition src_fn_StreamBuilder_lt (self_min self_max : src_Bound) (bound : list N) : (src_Bound * src_Bound) :=
+  let selfmax := (src_Bound_Excluded bound) in
+  (self_min, selfmax).
+
+Definition src_fn_StreamWithStateBuilder_ge (self_min self_max : src_Bound) (bound : list N) : (src_Bound * src_Bound) :=
+  let selfmin := (src_Bound_Included bound) in
+  (selfmin, self_max).
+
+Definition src_fn_StreamWithStateBuilder_gt (self_min self_max : src_Bound) (bound : list N) : (src_Bound * src_Bound) :=
+  let selfmin := (src_Bound_Excluded bound) in
+  (selfmin, self_max).
+
+Definition src_fn_StreamWithStateBuilder_le (self_min self_max : src_Bound) (bound : list N) : (src_Bound * src_Bound) :=
+  let selfmax := (src_Bound_Included bound) in
+  (self_min, selfmax).
+
+Definition src_fn_StreamWithStateBuilder_lt (self_min self_max : src_Bound) (bound : list N) : (src_Bound * src_Bound) :=
+  let selfmax := (src_Bound_Excluded bound) in
+  (self_min, selfmax).
+
 Definition src_fn_Output_prefix (self0 o : N) : N :=
   (N.min self0 o).
 
@@ -86,6 +130,23 @@ Definition src_fn_Output_sub (self0 o : N) : res N :=
 
 Definition src_fn_CheckSummer_masked (self_sum : N) : N :=
   (((N.lor (N.shiftr self_sum 15) ((N.shiftl self_sum 17) mod 4294967296)) + 2726488792) mod 4294967296).
+
+Definition src_fn_crc32c_slice16 (TABLE : list N) (TABLE16 : list (list N)) (prev : N) (buf : list N) : res N :=
+  let crc := (4294967295 - prev) in
+  do t_1 <- (src_while_res (length buf) (fun '(crc_1, buf_1) => (16 <=? (len buf_1))) (fun '(crc_2, buf_2) => do t <- (src_fn_read_u32_le buf_2);
+      let crc_3 := (N.lxor crc_2 t) in
+      let crc_4 := (N.lxor (N.lxor (N.lxor (N.lxor (N.lxor (N.lxor (N.lxor (N.lxor (N.lxor (N.lxor (N.lxor (N.lxor (N.lxor (N.lxor (N.lxor (List.nth (N.to_nat (List.nth (N.to_nat 15) buf_2 0)) (List.nth (N.to_nat 0) TABLE16 []) 0) (List.nth (N.to_nat (List.nth (N.to_nat 14) buf_2 0)) (List.nth (N.to_nat 1) TABLE16 []) 0)) (List.nth (N.to_nat (List.nth (N.to_nat 13) buf_2 0)) (List.nth (N.to_nat 2) TABLE16 []) 0)) (List.nth (N.to_nat (List.nth (N.to_nat 12) buf_2 0)) (List.nth (N.to_nat 3) TABLE16 []) 0)) (List.nth (N.to_nat (List.nth (N.to_nat 11) buf_2 0)) (List.nth (N.to_nat 4) TABLE16 []) 0)) (List.nth (N.to_nat (List.nth (N.to_nat 10) buf_2 0)) (List.nth (N.to_nat 5) TABLE16 []) 0)) (List.nth (N.to_nat (List.nth (N.to_nat 9) buf_2 0)) (List.nth (N.to_nat 6) TABLE16 []) 0)) (List.nth (N.to_nat (List.nth (N.to_nat 8) buf_2 0)) (List.nth (N.to_nat 7) TABLE16 []) 0)) (List.nth (N.to_nat (List.nth (N.to_nat 7) buf_2 0)) (List.nth (N.to_nat 8) TABLE16 []) 0)) (List.nth (N.to_nat (List.nth (N.to_nat 6) buf_2 0)) (List.nth (N.to_nat 9) TABLE16 []) 0)) (List.nth (N.to_nat (List.nth (N.to_nat 5) buf_2 0)) (List.nth (N.to_nat 10) TABLE16 []) 0)) (List.nth (N.to_nat (List.nth (N.to_nat 4) buf_2 0)) (List.nth (N.to_nat 11) TABLE16 []) 0)) (List.nth (N.to_nat (N.shiftr crc_3 24)) (List.nth (N.to_nat 12) TABLE16 []) 0)) (List.nth (N.to_nat ((N.shiftr crc_3 16) mod 256)) (List.nth (N.to_nat 13) TABLE16 []) 0)) (List.nth (N.to_nat ((N.shiftr crc_3 8) mod 256)) (List.nth (N.to_nat 14) TABLE16 []) 0)) (List.nth (N.to_nat (crc_3 mod 256)) (List.nth (N.to_nat 15) TABLE16 []) 0)) in
+      let buf_3 := (skipn (N.to_nat 16) buf_2) in
+      Ok (crc_4, buf_3)) (crc, buf));
+  let '(crc_5, buf_4) := t_1 in
+  let crc_8 := (fold_left (fun crc_6 b => (N.lxor (List.nth (N.to_nat (N.lxor (crc_6 mod 256) b)) TABLE 0) (N.shiftr crc_6 8))) buf_4 crc_5) in
+  Ok (4294967295 - crc_8).
+
+Definition src_fn_CheckSummer_new : N :=
+  0.
+
+Definition src_fn_CheckSummer_update (TABLE : list N) (TABLE16 : list (list N)) (self_sum : N) (buf : list N) : res N :=
+  (src_fn_crc32c_slice16 TABLE TABLE16 self_sum buf).
 
 Definition src_fn_common_idx (input max_ : N) : N :=
   let val_ := (((List.nth (N.to_nat input) src_COMMON_INPUTS 0) + 1) mod 256) in
@@ -585,6 +646,15 @@ Definition src_fn_Ref_will_always_match (T : src_aut) (state : src_St T) : bool 
 
 Definition src_fn_Ref_accept (T : src_aut) (state : src_St T) (byte : N) : src_St T :=
   (src_accept T state byte).
+
+Definition src_fn_Slot_partial_cmp (self_idx : N) (self_input : list N) (self_output other_idx : N) (other_input : list N) (other_output : N) : option comparison :=
+  (Some (CompOpp (match (lex_cmp self_input other_input) with Eq => (N.compare self_output other_output) | src_c => src_c end))).
+
+Definition src_fn_Slot_cmp (self_idx : N) (self_input : list N) (self_output other_idx : N) (other_input : list N) (other_output : N) : res comparison :=
+  match (src_fn_Slot_partial_cmp self_idx self_input self_output other_idx other_input other_output) with
+  | Some x => (Ok x)
+  | None => Panic
+  end.
 
 Definition src_fn_Fst_new_too_short (len version root_addr : N) : bool :=
   (len <? 32).
